@@ -72,6 +72,9 @@ def mnemonic_cases(G, nt="jumps_condition"):
     return out
 
 
+_ABORT_EVENTS = []
+
+
 def truth_table(ctx, k, chooser=None):
     """{(cxclass, (CF,PF,ZF,SF,OF)) -> bool}, plus per-class machine effects"""
     P = ctx.program
@@ -90,6 +93,7 @@ def truth_table(ctx, k, chooser=None):
 
         def one(asm, sp):
             I, st, v, r = run_interp_production(ctx, "jumps_condition", k, chooser, assume=asm, split=sp, pre=pre)
+            _ABORT_EVENTS.extend(e for e in I.events if e.kind == "assert")
             if v is not None and v.kind == "int" and not v.is_const():
                 # the predicate is returned as a value (no branch forced a case split): split on a flag bit it depends on
                 need = sorted(d for d in v.deps() if d in sp)
@@ -148,6 +152,7 @@ def run(ctx, chk):
     P = ctx.program
     G = ctx.gram("interpreter")
     chk.rule("C06.R1", "interpreter predicate == Intel predicate (complete truth table)", floor=23)
+    chk.rule("C06.R8", "no abort site in a conditional transfer, for every flag word and every CX", floor=3)
     chk.rule("C06.R2", "flag bit positions and get/set/unset_flag exactness", floor=36)
     chk.rule("C06.R3", "LOOP family decrements CX mod 2^16; others leave CX", floor=23)
     chk.rule("C06.R4", "jumps change no flag and no register other than CX", floor=23)
@@ -212,10 +217,17 @@ def run(ctx, chk):
         if m not in INTEL:
             chk.violation("C06.R1", m, "unknown-mnemonic", f"interpreter accepts '{m}', which is not an 8086 conditional transfer", where)
             continue
+        del _ABORT_EVENTS[:]
         try:
             res, err = truth_table(ctx, k, chooser)
         except Unsupported as e:
             res, err = None, str(e)
+        # R8: no flag state and no CX value makes the transfer abort (overflow checks are on in the analysed build)
+        if _ABORT_EVENTS:
+            from insn import report_aborts
+            report_aborts(chk, "C06.R8", m, list(_ABORT_EVENTS), where)
+        else:
+            chk.ok("C06.R8", m, "no abort site in the predicate", nontrivial=False)
         if res == "depends":
             (cname_, vals_), flags_ = err
             chk.violation("C06.R1", m, "depends-on-" + "+".join(flags_), f"'{m}' gives different outcomes for the same CF,PF,ZF,SF,OF = {dict(zip(STATUS, vals_))} depending on "
